@@ -63,6 +63,22 @@ StepOK01(r, n) ==
   \* a value in which some coordinate has the wrong length is refused with a stride-mismatch error (what the receiver
   \* holds afterwards is not prescribed - only that it is well formed, which WFAll demands of every projection)
   /\ (a.op = "setbad" => o.err = "stride")
+  \* the object's own coordinate views handed back in another order: what is read back is the OLD value in that order
+  /\ (a.op = "setself" =>
+        LET q == Side(o, a.to)  was == Side(Prev(r, n), a.to).val  d == Deflate(q.k, SelfOrder(was, a.how)) IN
+        /\ o.err = "none" /\ q.val = SelfOrder(was, a.how) /\ q.flat = d.flat)
+  \* SetCoords on a part handed out by an accessor: the part reads back the value; in the geometry it came from every OTHER
+  \* part keeps its value, and the part itself keeps its value or (a part of the same size may be a window that is written
+  \* through) shows the new one
+  /\ (a.op = "setpart" =>
+        LET q == Side(o, a.to)  was == Side(Prev(r, n), a.to)  m == a.pos + 1 IN
+        IF Len(was.val) < m THEN o.o1 = Prev(r, n).o1 /\ o.o2 = Prev(r, n).o2        \* no such part: the call is not made
+        ELSE
+        /\ o.err = "none" /\ o.part.pan = <<>> /\ o.part.val = a.v
+        /\ Side(o, 3 - a.to) = Side(Prev(r, n), 3 - a.to)
+        /\ Len(q.val) = Len(was.val)
+        /\ \A j \in DOMAIN was.val : j # m => q.val[j] = was.val[j]
+        /\ (q.val[m] = was.val[m] \/ (q.val[m] = a.v /\ Len(Deflate(PartKind(q.k), a.v).flat) = Len(Deflate(PartKind(q.k), PartVal(q.k, was.val, m)).flat))))
 First01(r) == LET bad == {n \in DOMAIN r.steps : ~StepOK01(r, n)} IN
               IF bad = {} THEN 0 ELSE CHOOSE n \in bad : \A m \in bad : n <= m
 Clause01(r, n) == LET o == r.steps[n] IN
@@ -70,6 +86,8 @@ Clause01(r, n) == LET o == r.steps[n] IN
     [] o.o2.pan # <<>> -> "panic:" \o o.o2.pan[1]
     [] ~(WFAll(o.o1) /\ WFAll(o.o2)) -> "ill-formed"
     [] r.case.hist[n].op = "setbad" -> "wrong-length-coordinate-not-refused:" \o o.err
+    [] r.case.hist[n].op = "setself" -> "own-coordinates-reordered-not-lossless"
+    [] r.case.hist[n].op = "setpart" -> "part-setcoords-changes-neighbours"
     [] OTHER -> r.case.hist[n].op \o "-not-lossless"
 
 LClass(l) == IF l = "No" THEN "No" ELSE "any"
